@@ -127,18 +127,18 @@ def _wf_seq(base, diff, path, probs, kind):
             last_add = key
             vl = e["valuelist"]
             if kind == "chars":
-                if not isinstance(vl, (str, list)) or len(vl) == 0 or (
+                if not isinstance(vl, (str, list)) or (
                         isinstance(vl, list) and not all(isinstance(c, str) and len(c) == 1 for c in vl)):
                     probs.append("%s: bad character valuelist %r" % (path, vl))
             elif kind == "lines":
-                if not isinstance(vl, list) or len(vl) == 0 or not all(isinstance(c, str) for c in vl):
+                if not isinstance(vl, list) or not all(isinstance(c, str) for c in vl):
                     probs.append("%s: bad line valuelist" % path)
             else:
-                if not isinstance(vl, list) or len(vl) == 0:
-                    probs.append("%s: empty or non-list valuelist" % path)
+                if not isinstance(vl, list):
+                    probs.append("%s: non-list valuelist" % path)
         elif op == "removerange":
             ln = e["length"]
-            if not _isint(ln) or ln < 1:
+            if not _isint(ln) or ln < 0:     # a zero-length range is a documented no-op (A[key:key+0])
                 probs.append("%s: removerange length %r" % (path, ln))
                 continue
             if key + ln > n:
